@@ -145,3 +145,15 @@ package cpusuppress
 //@   loop 5 invariant #res: forall c int :: has(cpusetReserved.elems, c) ==> exclusiveCPUID[c]
 //@   assert before call Filter: #sys: forall c int :: has(exclusiveSystemQOSCPUSet.elems, c) ==> exclusiveCPUID[c]
 //@   assert before call Filter: #reserved: forall c int :: has(cpusetReserved.elems, c) ==> exclusiveCPUID[c]
+
+// ---------- property C12: the none-policy cpuset rewrite never passes through an invalid hierarchy ----------
+// Call-order pins. old is read from the besteffort qos cgroup only; pods / containers below it may hold other sets, so the
+// loose top-down write of union(old, new) must happen unconditionally before the exact bottom-up write of new.
+//@ func (*CPUSuppress).applyCPUSetWithNonePolicy [C12]
+//@   requires r != nil
+//@   assert before call writeBECgroupsCPUSet#1: #loose: len(cpus) > 0 && lastresult("GetBECPUSetPathsByMaxDepth", 1) == nil && $arg1 == cpuset.GenerateCPUSetStr(cpuset.MergeCPUSet(oldCPUSet, cpus)) && !$arg2 && arr($arg0) == arr(lastresult("GetBECPUSetPathsByMaxDepth", 0)) && off($arg0) == off(lastresult("GetBECPUSetPathsByMaxDepth", 0)) && len($arg0) == len(lastresult("GetBECPUSetPathsByMaxDepth", 0))
+//@   assert before call writeBECgroupsCPUSet#2: #exact: $arg1 == cpuset.GenerateCPUSetStr(cpus) && $arg2 && arr($arg0) == arr(lastresult("GetBECPUSetPathsByMaxDepth", 0)) && off($arg0) == off(lastresult("GetBECPUSetPathsByMaxDepth", 0)) && len($arg0) == len(lastresult("GetBECPUSetPathsByMaxDepth", 0))
+//@   assert before call writeBECgroupsCPUSet: #twice: calls("writeBECgroupsCPUSet") <= 2
+//@   assert at return: #empty: len(cpus) <= 0 ==> calls("writeBECgroupsCPUSet") == 0 && result == nil
+//@   assert at return: #nopaths: result != nil ==> calls("writeBECgroupsCPUSet") == 0
+//@   assert at return: #both: len(cpus) > 0 && result == nil ==> calls("writeBECgroupsCPUSet") == 2
